@@ -17,7 +17,11 @@ RULE = ("libraries parsed (default stack, empty stack, or with name / month / ke
         "NameParts and MiddlewareErrorBlocks) from grammar documents over small key pools (duplicate keys, duplicate fields) and "
         "their mutations (failed blocks) plus hand-written name documents; x every shipped middleware class and option set "
         "(52 configurations) singly, x seeded stacks of 2 and 3, each in copy mode (checked) and in-place mode (sharing counted); "
-        "write_string x 8 formats; heap stream: the real framework with 9 probe bodies + Resolve/Sort/LibraryMiddleware AND every "
+        "write_string x 13 formats (5 with comment templates str.format cannot fill, so the writer raises at the first failed "
+        "block), each also against a fresh equal format; wseq: ONE format object and one set of prepended middleware instances "
+        "shared by 3-5 write_string calls on 2-3 libraries (some edited to look code-built: no raw text, a foreign Block "
+        "subclass), format and library checked after every call whether it returned or raised, every text compared with what a "
+        "fresh equal format gives; heap stream: the real framework with 9 probe bodies + Resolve/Sort/LibraryMiddleware AND every "
         "shipped block middleware class x option set against its Coq body model (Model/HeapBodies.v), both modes, "
         "against the Coq model on the same initial heap. distinct = distinct (document, parse option, stack, mode); non-trivial = "
         "the library has at least one entry or string block, i.e. some mutable field/value/metadata object that could be shared")
@@ -81,7 +85,16 @@ NAME_FIELDS = [("author", "editor", "translator"), ("author", "title", "Author")
 PARSE_OPTS = ["default", "raw", "sep", "split", "split_norm", "month", "latexdec", "sortcustom"]
 FORMATS = [{}, {"value_column": "auto"}, {"value_column": 12}, {"indent": "  ", "trailing_comma": True},
            {"value_column": "auto", "block_separator": "\n", "indent": ""}, {"parsing_failed_comment": "% failed {n}"},
-           {"value_column": "auto", "trailing_comma": True, "parsing_failed_comment": "%%"}, {"block_separator": ""}]
+           {"value_column": "auto", "trailing_comma": True, "parsing_failed_comment": "%%"}, {"block_separator": ""},
+           # comment templates str.format cannot fill: the writer raises part-way, at the first failed block
+           # (KeyError, IndexError, ValueError, AttributeError); new ones are appended so that indices stay stable
+           {"value_column": "auto", "parsing_failed_comment": "% failed {m} lines"},
+           {"value_column": "auto", "indent": "  ", "parsing_failed_comment": "% {n} {}"},
+           {"value_column": "auto", "trailing_comma": True, "block_separator": "\n", "parsing_failed_comment": "% {n"},
+           {"value_column": 9, "indent": " ", "parsing_failed_comment": "% {n.lines}"},
+           {"value_column": "auto", "indent": "", "parsing_failed_comment": "% {n:>4} of {total}"}]
+# edits of a parsed library that make it look like one built in code (the writer then fails on some block)
+POSTS = [None, None, None, "strip_raw", "foreign_block", "strip_raw_failed"]
 
 
 def make_mw(spec, inplace):
@@ -149,7 +162,78 @@ def parse(text, opt):
     return bibtexparser.parse_string(text, append_middleware=app)
 
 
+def make_format(idx, always=False):
+    """a fresh BibtexFormat configured as FORMATS[idx] (None for the unconfigured even ones unless `always`)"""
+    import bibtexparser
+    fspec = FORMATS[idx]
+    if not (fspec or idx % 2 == 1 or always):
+        return None
+    fmt = bibtexparser.BibtexFormat()
+    for k, v in fspec.items():
+        setattr(fmt, k, v)
+    return fmt
+
+
+_FOREIGN = []
+
+
+def foreign_block():
+    """a block of a class the writer does not know (a user-defined Block subclass)"""
+    import bibtexparser.model as model
+    if not _FOREIGN:
+        class ForeignBlock(model.Block):
+            _verif_probe_class = True
+
+            def __init__(self):
+                super().__init__(start_line=None, raw=None)
+                self.payload = ["x", {"k": "v"}]
+        ForeignBlock.__qualname__ = "ForeignBlock"
+        _FOREIGN.append(ForeignBlock)
+    return _FOREIGN[0]()
+
+
+def apply_post(lib, post):
+    """make the parsed library look like one built in code; the writer cannot print some of these blocks and raises there"""
+    if post == "strip_raw":
+        for b in lib.blocks:
+            b._raw = None
+    elif post == "strip_raw_failed":
+        for b in lib.failed_blocks[-1:]:
+            b._raw = None
+    elif post == "foreign_block":
+        lib._blocks.insert((len(lib._blocks) + 1) // 2, foreign_block())
+    return lib
+
+
 # ---------------------------------------------------------------------------------------------- generators
+DUP_TAILS = ["@article{%s, title = {a}}\n@article{%s, averyveryverylongfieldname = {b}, note = {c}}\n",
+             "@string{%s = {a}}\n@string{%s = {b}}\n@misc{zz, howpublished = {x}}\n",
+             "@book{%s, title = {t}, title = {u}, organization = {o}}\n%s\n",
+             "@article{%s, author = {x}}\n@article{%s, author = {y}\n\n@misc{ok, k = {v}}\n"]
+
+
+def gen_wseq(rng):
+    """ONE format object used for a sequence of write_string calls on 2-3 libraries (some visited twice); at least one of
+    the libraries usually has a failed block, so that with the un-fillable comment templates (or the code-built blocks of
+    POSTS) some call in the middle of the sequence raises part-way through the writer"""
+    docs = []
+    for _ in range(rng.choice([2, 2, 3])):
+        text = gen_text(rng)
+        if rng.random() < 0.5:
+            k = rng.choice(["k1", "dup", "K1"])
+            tail = rng.choice(DUP_TAILS) % (k, k)
+            text = text + "\n" + tail if rng.random() < 0.6 else tail + text
+        docs.append({"text": text, "parse": rng.choice(["default", "default", "raw", "month", "split_norm", "sep", "latexdec"]),
+                     "post": rng.choice(POSTS)})
+    n = len(docs)
+    steps = list(range(n)) + [rng.randrange(n) for _ in range(rng.randint(1, 2))]
+    if rng.random() < 0.5:
+        rng.shuffle(steps)
+    auto = [i for i, f in enumerate(FORMATS) if f.get("value_column") == "auto"]
+    return {"kind": "wseq", "docs": docs, "steps": steps,
+            "format": rng.choice(auto) if rng.random() < 0.7 else rng.randrange(len(FORMATS)),
+            # the copy-mode middleware instances given as prepend_middleware are shared by all calls of the sequence too
+            "prepend": rng.choice([None, None, None, [], [rng.choice(SPECS)]])}
 NAMES = ["Donald E. Knuth", "Knuth, Donald E.", "Ludwig van Beethoven", "de la Vall{\\'e}e Poussin, Charles", "Smith, Jr., John",
          "{Barnes and Noble, Inc.}", "A and B", "Jean-Paul Sartre", "von Last, First", "x", "", "a, b, c, d", "AA bb CC dd",
          "M{\\\"u}ller", "Jos\\'e Garc\\'ia", "{\\O}stergaard", ",", "A,, B", "and", "A and", "Lopez\\", "$x$ y", "first last,"]
@@ -215,6 +299,9 @@ def generate(rng, tier):
                                                     "prepend": rng.choice([None, None, None, [], [], [rng.choice(SPECS)],
                                                                            [rng.choice(SPECS)], [rng.choice(SPECS), rng.choice(SPECS)]]),
                                                     "prepend_tuple": rng.random() < 0.3}})
+    # sequences of write_string calls sharing ONE format object (and one set of prepended middleware instances)
+    for _ in range(120 if quick else 6000):
+        cases.append({"stream": "wseq", "input": gen_wseq(rng)})
     cases += H.generate(rng, tier, gen_text, PARSE_OPTS)
     return cases
 
@@ -289,6 +376,8 @@ def impl(case):
     if inp["kind"] == "heap":
         import props.c07_heap as H
         return H.impl(case, parse)
+    if inp["kind"] == "wseq":
+        return impl_wseq(inp)
     import heapsnap as HS
     import bibtexparser
     rec = {"sx_in": None, "sx_out": None, "key": json.dumps([inp["text"], inp["parse"], inp.get("stack"), inp.get("format"), inp.get("prepend"), inp.get("prepend_tuple")])}
@@ -363,12 +452,8 @@ def impl(case):
             except Exception:  # noqa: BLE001
                 tags.append("inplace_raised")
         else:
-            fmt = None
             fspec = FORMATS[inp["format"]]
-            if fspec or inp["format"] % 2 == 1:
-                fmt = bibtexparser.BibtexFormat()
-                for k, v in fspec.items():
-                    setattr(fmt, k, v)
+            fmt = make_format(inp["format"])
             fsnap = HS.clone(fmt)
             fmap = HS.identity_map(fmt) if fmt is not None else None
             texts = []
@@ -400,12 +485,94 @@ def impl(case):
                     problems.append("write %d: value_column of the caller's format is %r, was 'auto'" % (n, fmt.value_column))
             if texts[0] != texts[1]:
                 problems.append("writing twice gave different text: %r vs %r" % (texts[0][:80], texts[1][:80]))
+            # the format is "exactly as it was": a third write with it gives what a fresh, equally configured format gives
+            used = fmt
+            fmt = make_format(inp["format"])
+            run(lib)
+            fmt = used
+            run(lib)
+            if not (texts[2] == texts[3] == texts[0]):
+                problems.append("a format used before writes other text than a fresh equal format: %r vs fresh %r" %
+                                (texts[3][:80], texts[2][:80]))
             tags.append("write_raised" if isinstance(texts[0], tuple) else ("write_auto" if fspec.get("value_column") == "auto" else "write"))
             rec["summary"] = repr(texts[0])[:120]
     except HS.UnknownObject as e:
         problems.append("snapshotter met an unknown object (fail closed): %s" % e)
     rec["oracle"] = {"ok": not problems, "detail": "; ".join(problems[:3])}
     rec["tags"] = tags
+    return rec
+
+
+def impl_wseq(inp):
+    """ONE BibtexFormat object (and one list of prepended copy-mode middleware instances) used for a sequence of
+    write_string calls on several libraries.  After EVERY call, whether it returned or raised: the library written is
+    equal to its prior deep copy and made of the same objects, the format is equal to its prior deep copy and made of the
+    same objects.  At the end: every text (or exception type) obtained with the shared format is what a fresh, equally
+    configured format and fresh middleware instances give for that library."""
+    import heapsnap as HS
+    import bibtexparser
+    rec = {"sx_in": None, "sx_out": None, "key": json.dumps(["wseq", inp["docs"], inp["steps"], inp["format"], inp["prepend"]])}
+    tags = ["wseq"]
+    libs = []
+    try:
+        for d in inp["docs"]:
+            libs.append(apply_post(parse(d["text"], d["parse"]), d.get("post")))
+    except Exception as e:  # noqa: BLE001  (C01's business)
+        rec.update(oracle={"ok": True, "detail": ""}, nontrivial=False, tags=["parse_raised"], summary="parse raised " + type(e).__name__)
+        return rec
+    rec["nontrivial"] = any(type(b).__name__ in ("Entry", "String") for l in libs for b in l.blocks)
+    fspec = FORMATS[inp["format"]]
+    problems = []
+
+    def writer(fmt, kw):
+        def run(l):
+            try:
+                return bibtexparser.write_string(l, bibtex_format=fmt, **kw)
+            except HS.UnknownObject:
+                raise
+            except Exception as e:  # noqa: BLE001  (what is written is C06's business; here: nothing may be left changed)
+                if in_deepcopy(e):
+                    problems.append("write_string: %s raised inside copy.deepcopy" % type(e).__name__)
+                return ("raised", type(e).__name__)
+        return run
+
+    def kwargs():
+        return {} if inp["prepend"] is None else {"prepend_middleware": [make_mw(s, False) for s in inp["prepend"]]}
+    try:
+        fmt = make_format(inp["format"], always=True)
+        fsnap = HS.clone(fmt)
+        fmap = HS.identity_map(fmt)
+        kw = kwargs()
+        run = writer(fmt, kw)
+        got = []
+        for n, i in enumerate(inp["steps"]):
+            what = "call %d (library %d)" % (n, i)
+            out = []
+            _, pr, _ = check_stage(libs[i], lambda l: (out.append(run(l)), [])[1], what)
+            problems += pr
+            got.append((n, i, out[0]))
+            ended = "raised " + out[0][1] if isinstance(out[0], tuple) else "returned"
+            d = HS.struct_diff(fmt, fsnap)
+            if d is not None:
+                problems.append("%s %s: the caller's format changed at %s" % (what, ended, d))
+            elif HS.identity_map(fmt) != fmap:
+                problems.append("%s %s: the caller's format consists of other objects" % (what, ended))
+            if isinstance(out[0], tuple):
+                tags.append("wseq_raised_then_more" if n < len(inp["steps"]) - 1 else "wseq_raised_last")
+        fresh = {}
+        for n, i, text in got:
+            if i not in fresh:
+                fresh[i] = writer(make_format(inp["format"], always=True), kwargs())(libs[i])
+            if text != fresh[i]:
+                problems.append("call %d (library %d): the shared format gives other text than a fresh equal format: %r vs fresh %r"
+                                % (n, i, text[:80], fresh[i][:80]))
+        if fspec.get("value_column") == "auto":
+            tags.append("wseq_auto")
+        rec["summary"] = "%s -> %s" % (inp["steps"], [t[1] if isinstance(t, tuple) else len(t) for _, _, t in got])
+    except HS.UnknownObject as e:
+        problems.append("snapshotter met an unknown object (fail closed): %s" % e)
+    rec["oracle"] = {"ok": not problems, "detail": "; ".join(problems[:3])}
+    rec["tags"] = sorted(set(tags))
     return rec
 
 
